@@ -132,7 +132,7 @@ pub fn run(tier: &str) -> Result<Report, String> {
     let mut rep = Report::new("C04", tier, "model_checking");
     std_assumptions(&mut rep);
     let nets = core_nets(3)?;
-    let (which, a_size, max_len, fam_n): (Vec<&str>, usize, usize, usize) = if tier == "quick" { (vec!["con2", "asy2", "imp1"], 14, 2, 2) } else { (vec!["con2", "asy2", "imp1", "unc2", "tog2", "inp2"], 28, 3, 3) };
+    let (which, a_size, max_len, fam_n): (Vec<&str>, usize, usize, usize) = if tier == "quick" { (vec!["con2", "asy2", "imp1"], 14, 3, 2) } else { (vec!["con2", "asy2", "imp1", "unc2", "tog2", "inp2"], 28, 3, 3) };
     for b in nets.iter().filter(|b| which.contains(&b.name.as_str())) {
         sem::note_network(&mut rep, b);
         let fams = label_families(b, 4);
